@@ -49,6 +49,11 @@ Fixpoint paints (glyphs : bool) (v : vtree) (t : ltree) (w : window) {struct v} 
       | DCt c, k :: _ => paints glyphs (build c) k (win_apply w t)
       | _, _ => []
       end
+  | VRef (Some v') =>
+      match l_data t, l_kids t with
+      | DRef, k :: _ => paints glyphs v' k (win_apply w t)
+      | _, _ => []
+      end
   | _ => []
   end.
 
@@ -168,7 +173,7 @@ Section Paint.
     - destruct (l_kids t) as [|k ks]; [discriminate|].
       destruct (IHv k (apply_to sh t) (win_apply w t) s s' Rsub Hlen E) as (L & EL & RL). exists L. auto.
     - injection E as <-. apply nolog.
-    - destruct (l_data t) as [| |c]; try discriminate. destruct (l_kids t) as [|k ks]; [discriminate|].
+    - destruct (l_data t) as [| |c|]; try discriminate. destruct (l_kids t) as [|k ks]; [discriminate|].
       destruct (H0 c k (apply_to sh t) (win_apply w t) s s' Rsub Hlen E) as (L & EL & RL). exists L. auto.
     - eapply lift_nolog; eauto.
     - injection E as <-. apply nolog.
@@ -180,6 +185,12 @@ Section Paint.
     - (* probe *)
       destruct (fill_cells _ _ _) as [d1| | |]; try discriminate. cbn [bind] in E. injection E as <-. cbn.
       exists [(id, apply_to sh t)]. split; [reflexivity|]. constructor; [|constructor]. split; [reflexivity|exact Rsub].
+    - eapply lift_nolog; eauto.
+    - eapply lift_nolog; eauto.
+    - injection E as <-. apply nolog.
+    - destruct (l_data t); try (injection E as <-; apply nolog).
+      destruct (l_kids t) as [|k ks]; [discriminate|].
+      destruct (IHv k (apply_to sh t) (win_apply w t) s s' Rsub Hlen E) as (L & EL & RL). exists L. auto.
   Qed.
 End Paint.
 
